@@ -146,6 +146,10 @@ func (h *Hasher) walk(v reflect.Value, path string) {
 		h.walk(e, path)
 	case reflect.Struct:
 		t := v.Type()
+		if pp := t.PkgPath(); pp == "sync" || pp == "sync/atomic" || pp == "internal/sync" {
+			// synchronisation objects (Mutex, Once, Pool, atomic.*) are written by design, under their own protocol
+			return
+		}
 		for i := 0; i < v.NumField(); i++ {
 			f := t.Field(i)
 			name := t.PkgPath() + "." + t.Name() + "." + f.Name
